@@ -248,7 +248,8 @@ class Contract:
     def __init__(self, qual, params, spec=None, requires=None, raises=(), loops=None, props=(),
                  lift=None, note="", abstract=None, result_type=None, search=None, cuts=(),
                  opaque=False, shape=None, ensures=None, transparent=(), assumed=False, memo_transparent=(),
-                 on_apply=None, shards=1, native_spec=None, spec_module=None, post=None, call_inline=False):
+                 on_apply=None, shards=1, native_spec=None, spec_module=None, post=None, call_inline=False,
+                 native_pre=None, native_post=None):
         self.qual = qual              # "yarl._parse:split_netloc"
         self.params = params          # list[(name, type)]
         self.spec = spec              # native function object defined in a contracts module
@@ -274,6 +275,8 @@ class Contract:
         self.spec_module = spec_module   # module whose names loop contracts may use when spec is None
         self.post = post              # boolean expression over the locals, ghosts (G_*) and `result` at every return
         self.call_inline = call_inline   # callers execute the body (the function's effect is on its argument's memo)
+        self.native_pre = native_pre     # engine-level precondition / pre-state capture (ex, st, args) -> pre
+        self.native_post = native_post   # engine-level postcondition (ex, st, pre, flow, value, args)
 
     # --- use at a call site: the callee is its specification -----------------
     def apply(self, ex, st, args, kwargs, node, f):
@@ -446,6 +449,14 @@ def instantiate_param(ex, ctx, desc):
         return VBool(z3.Bool(name))
     if kind == "const":
         return ex.wrap(name)
+    if kind == "writer" and name == "symbolic":
+        from . import cmodel
+        blk = cmodel.new_block(ctx, z3.Int("w_blocksize"), name="wmem")
+        blk.fields["static"] = VBool(z3.Bool("w_static"))
+        chg = z3.Int("w_changed")
+        ctx.add(z3.Or(chg == 0, chg == 1))
+        return V.VObj("Writer", {"buf": blk, "size": VInt(z3.Int("w_size")), "pos": VInt(z3.Int("w_pos")),
+                                 "changed": VInt(chg)}, fresh=True)     # *writer is in the function's frame
     if kind == "writer":
         return V.VObj("Writer", {"buf": VConst("BUFFER"), "size": VInt(8192), "pos": VInt(0), "changed": VInt(0)},
                       fresh=False)
@@ -753,6 +764,7 @@ def verify_contract(contract, registry, combo_filter=None, timeout_ms=10000, rou
             broke = False
             for st in pre_states:
               try:
+                  npre = contract.native_pre(ex, st, args) if contract.native_pre is not None else None
                   code_env = ex.bind_params(fn, args, [n for n, _ in contract.params])
                   spec_env = ex.bind_params(sp, sargs) if sp else {}
                   code_env["__globals__"] = ms.mod.__dict__
@@ -787,6 +799,9 @@ def verify_contract(contract, registry, combo_filter=None, timeout_ms=10000, rou
                       res["paths"] += 1
                       if res["paths"] > ex.max_paths:
                           raise Unsupported("path budget exceeded")
+                      if contract.native_post is not None:
+                          contract.native_post(ex, s2, npre, "return" if flow == "next" else flow,
+                                               val if (flow == "return" and val is not None) else NONE, args)
                       if contract.post is not None and flow in ("return", "next"):
                           env = dict(s2.env)
                           g = dict(env.get("__globals__", {}))
